@@ -55,14 +55,20 @@ def const_of(v):
         return v[1]
     if v[0] == "binop" and v[1] in ("Eq", "Ne", "Lt", "Le", "Gt", "Ge"):
         a, b = const_of(v[2]), const_of(v[3])
-        if a is not None and b is not None and type(a) == type(b):
+        if a is not None and b is not None and (type(a) == type(b) or (isinstance(a, int) and isinstance(b, int))):
             return _cmp(v[1], a, b)
     if v[0] == "unop" and v[1] == "Not":
         a = const_of(v[2])
         if isinstance(a, bool):
             return not a
-    if v[0] == "cast" and v[2][0] == "const":
+    if v[0] == "cast" and v[2][0] in ("const", "discr"):
         return const_of(v[2])
+    if v[0] == "discr" and len(v) > 2:
+        name = variant_of(v[1])
+        if name is not None:
+            for val, n in v[2]:
+                if n == name:
+                    return val
     return None
 
 
@@ -111,6 +117,26 @@ def walk_terms(v):
         for x in v.values():
             for y in walk_terms(x):
                 yield y
+
+
+def canon_cmp(v):
+    """canonical form of a comparison term: (key, negated).  Eq is symmetric, Ne = !Eq, Ge = !Lt, Gt(a,b) = Lt(b,a), Le(a,b) = !Lt(b,a)"""
+    neg = False
+    while v[0] == "unop" and v[1] == "Not":
+        v, neg = v[2], not neg
+    if v[0] != "binop" or v[1] not in ("Eq", "Ne", "Lt", "Le", "Gt", "Ge"):
+        return None
+    op, a, b = v[1], v[2], v[3]
+    if op in ("Eq", "Ne"):
+        x, y = sorted([repr(a), repr(b)])
+        return ("cmp:Eq:%s:%s" % (x, y), neg != (op == "Ne"))
+    if op == "Lt":
+        return ("cmp:Lt:%s:%s" % (repr(a), repr(b)), neg)
+    if op == "Ge":
+        return ("cmp:Lt:%s:%s" % (repr(a), repr(b)), not neg)
+    if op == "Gt":
+        return ("cmp:Lt:%s:%s" % (repr(b), repr(a)), neg)
+    return ("cmp:Lt:%s:%s" % (repr(b), repr(a)), not neg)
 
 
 class Explorer:
@@ -170,6 +196,15 @@ class Explorer:
         # unknown scalar: follow every edge, remembering the assumption so that equal scrutinees agree later
         k = repr(v)
         known = st.__dict__.setdefault("assumed", {})
+        canon = canon_cmp(v) if t.get("dty") == "bool" else None
+        if canon is not None:
+            ck, cneg = canon
+            if ck in known and known[ck] in (0, 1):
+                iv = known[ck] ^ (1 if cneg else 0)
+                for val, tg in t["targets"]:
+                    if val == iv:
+                        return [(tg, None, None)]
+                return [(t["otherwise"], None, None)]
         if k in known:
             iv = known[k]
             for val, tg in t["targets"]:
@@ -187,23 +222,29 @@ class Explorer:
         vals = [x for x, _ in t["targets"]]
         is_bool = t.get("dty") == "bool"
         v = deep(st, v)
+        def asm(val):
+            if canon is not None and val in (0, 1):
+                return ("assume2", k, val, canon[0], val ^ (1 if canon[1] else 0))
+            return ("assume", k, val)
         for val, tg in t["targets"]:
-            out.append((tg, ("assume", k, val), ("scalar", v, bool(val) if is_bool else val)))
+            out.append((tg, asm(val), ("scalar", v, bool(val) if is_bool else val, vals)))
         if is_bool and vals in ([0], [1]):
             other = 1 - vals[0]
-            out.append((t["otherwise"], ("assume", k, other), ("scalar", v, bool(other))))
+            out.append((t["otherwise"], asm(other), ("scalar", v, bool(other), vals)))
         else:
-            out.append((t["otherwise"], ("assume", k, "other:%s" % ",".join(str(x) for x in vals)), ("scalar", v, None)))
+            out.append((t["otherwise"], ("assume", k, "other:%s" % ",".join(str(x) for x in vals)), ("scalar", v, None, vals)))
         return out
 
     @staticmethod
     def _apply_refine(st, refine):
         if refine is None:
             return
-        if refine[0] == "assume":
+        if refine[0] in ("assume", "assume2"):
             st.__dict__.setdefault("assumed", {})
             st.assumed = dict(st.assumed)
             st.assumed[refine[1]] = refine[2]
+            if refine[0] == "assume2":
+                st.assumed[refine[3]] = refine[4]
             return
         key, name, adt, cur = refine
         if adt == "std::option::Option":
@@ -282,8 +323,10 @@ class Explorer:
                         res = self.on_call(bb, t, args, st)
                     if res is None:
                         res = st.call(name, t, args, bb)
+                        if res and res[0] == "call" and len(res) == 5 and res[3] == bb and visits.get(bb, 1) > 1:
+                            res = res + (visits.get(bb, 1),)     # the same call site on a later loop iteration yields a different value
                     st.calls.append((bb, name, args, res))
-                    events = events + [(bb, "call", name, args, res, derefs, t.get("callee"))]
+                    events = events + [(bb, "call", name, args, res, derefs, t.get("callee"), t.get("res_name") or "")]
                     st.write_key(pl_key(t["dest"]), res)
                     if t.get("target") is None:
                         self._emit(Path(blocks, st, events, conds, ("diverge", bb)))
@@ -370,3 +413,35 @@ def io_model(bb, t, args, st):
                 r = not r
             return ("const", r, str(r).lower(), None)
     return None
+
+
+def head_call(x, depth=0):
+    """the call whose result the term is (a projection of): peels field / downcast / refined / payload / unwrap / deref / ref* / cast
+    wrappers.  None when the term is not simply the (unwrapped) result of one call."""
+    while isinstance(x, tuple) and x and depth < 40:
+        depth += 1
+        k = x[0]
+        if k == "call":
+            return x
+        if k in ("field", "downcast", "deref", "unwrap", "ref*", "payload"):
+            x = x[1]
+        elif k == "refined":
+            x = x[3]
+        elif k == "cast":
+            x = x[2]
+        elif k == "some":
+            x = x[1]
+        else:
+            return None
+    return None
+
+
+def sum_leaves(x, depth=0):
+    """leaves of a term built with + (Add / AddWithOverflow(.0) / AddUnchecked): list of terms; [x] when x is not a sum"""
+    if depth > 40 or not isinstance(x, tuple):
+        return [x]
+    if x and x[0] == "field" and x[2] == "0" and isinstance(x[1], tuple) and x[1] and x[1][0] == "binop" and x[1][1] == "AddWithOverflow":
+        return sum_leaves(x[1][2], depth + 1) + sum_leaves(x[1][3], depth + 1)
+    if x and x[0] == "binop" and x[1] in ("Add", "AddUnchecked"):
+        return sum_leaves(x[2], depth + 1) + sum_leaves(x[3], depth + 1)
+    return [x]
